@@ -233,7 +233,22 @@ pub fn gen_history(rng: &mut Rng, p: &Profile) -> Vec<Op> {
             }),
         }
     }
+    // one history in six: the (small) timestamps are mapped, order preserved, onto the extremes of the u64 range
+    // (0, 1, around 2^31 / 2^32, around 2^63, u64::MAX): every comparison, cast and sentinel sees them
+    if rng.chance(1, 6) {
+        for op in h.iter_mut() {
+            if let Op::Put { ts, .. } | Op::Del { ts, .. } = op {
+                *ts = extreme_ts(*ts);
+            }
+        }
+    }
     h
+}
+
+/// order-preserving map of the small timestamps the generators use onto the extremes of the u64 range
+pub fn extreme_ts(ts: u64) -> u64 {
+    const EXT: [u64; 8] = [0, 1, 1 << 31, 1 << 32, (1 << 63) - 1, 1 << 63, u64::MAX - 1, u64::MAX];
+    EXT[ts.min(7) as usize]
 }
 
 /// Exhaustive enumeration of all histories of length `len` over a small alphabet (one key).
